@@ -20,6 +20,7 @@ from vlib.proto import C, T, is_c, is_t, show, subterms
 from vlib.symwalk import SymInterp
 from vlib.sym import Lin, equal
 from vlib.front import unparse, dotted, const_value, AnchorMissing
+from vlib.pat import Pat
 
 A = 'phylib/io/array.py'
 M = 'phylib/io/model.py'
@@ -246,6 +247,78 @@ def cdiv_norm(e):
     return t
 
 
+# step: max(1, ceil-division(n_chunks, kept))
+def txt(x):
+    return unparse(x).replace(' ', '')
+
+def divform(e):
+    """-> ('ceil'|'floor', numerator text, denominator text) or None"""
+    if isinstance(e, ast.Call) and dotted(e.func) in ('int', 'np.int64', 'np.int32') and len(e.args) == 1:
+        inner = divform(e.args[0])
+        if inner:
+            return inner
+        x = e.args[0]
+        if isinstance(x, ast.BinOp) and isinstance(x.op, ast.Div):
+            return ('floor', txt(x.left), txt(x.right))
+        return None
+    if isinstance(e, ast.Call) and (dotted(e.func) or '').split('.')[-1] in ('ceil', 'floor') and len(e.args) == 1:
+        x = e.args[0]
+        if isinstance(x, ast.BinOp) and isinstance(x.op, ast.Div):
+            den = x.right
+            if isinstance(den, ast.Call) and dotted(den.func) == 'float':
+                den = den.args[0]
+            num = x.left
+            if isinstance(num, ast.Call) and dotted(num.func) == 'float':
+                num = num.args[0]
+            return ((dotted(e.func) or '').split('.')[-1], txt(num), txt(den))
+        return None
+    if isinstance(e, ast.BinOp) and isinstance(e.op, ast.FloorDiv):
+        l = e.left
+        if isinstance(l, ast.BinOp) and isinstance(l.op, ast.Sub) and const_value(l.right) == 1 and isinstance(l.left, ast.BinOp) and \
+                isinstance(l.left.op, ast.Add) and txt(l.left.right) == txt(e.right):
+            return ('ceil', txt(l.left.left), txt(e.right))
+        return ('floor', txt(l), txt(e.right))
+    if isinstance(e, ast.UnaryOp) and isinstance(e.op, ast.USub) and isinstance(e.operand, ast.BinOp) and isinstance(e.operand.op, ast.FloorDiv) and \
+            isinstance(e.operand.left, ast.UnaryOp) and isinstance(e.operand.left.op, ast.USub):
+        return ('ceil', txt(e.operand.left.operand), txt(e.operand.right))
+    return None
+
+
+def _vector_form(ctx, fi, bounds_p, kept_p):
+    """Kept chunks without a loop: column_stack((b[:-1][::step], b[1:][::step])).ravel() (helpers extracted after the pinned tree are inlined by expand)."""
+    fin = [a for a in fi.nodes(ast.Assign) if Pat().m('self.chunks_kept', a.targets[0])]
+    if len(fin) != 1:
+        return ctx.undecided('C17.S1', fi, 'no loop building the kept chunks')
+    e = fi.expand(fin[0].value, stop=(bounds_p, kept_p), depth=10)
+    P = Pat()
+    if not P.any(['np.column_stack((E_s, E_e)).ravel()', 'np.column_stack([E_s, E_e]).ravel()', 'np.stack((E_s, E_e), axis=1).ravel()', 'np.c_[E_s, E_e].ravel()',
+                  'np.vstack((E_s, E_e)).T.ravel()', 'np.column_stack((E_s, E_e)).flatten()', 'np.column_stack((E_s, E_e)).reshape(-1)'], e):
+        return ctx.undecided('C17.S1', fi, 'construction of the kept chunks `%s` not recognised' % unparse(e)[:80], fin[0])
+    starts = [n for n in ast.walk(e)]
+    # recover the two operands structurally
+    tup = [n for n in ast.walk(e) if isinstance(n, (ast.Tuple, ast.List)) and len(n.elts) == 2]
+    s_e, e_e = tup[0].elts
+    base = [bounds_p, 'np.asarray(%s)' % bounds_p, 'np.array(%s)' % bounds_p]
+    PS = Pat()
+    s_ok = any(PS.m(f_ % b_, s_e) for b_ in base for f_ in ('%s[:-1][::E_step]', '%s[:-1:E_step]', '%s[0:-1:E_step]'))
+    PE = Pat(binds=PS.b)
+    e_ok = s_ok and any(PE.m(f_ % b_, e_e) for b_ in base for f_ in ('%s[1:][::E_step]', '%s[1::E_step]'))
+    vocab = lambda x: {n.id for n in ast.walk(x) if isinstance(n, ast.Name)} <= {bounds_p, kept_p, 'np', 'len', 'max', 'int', 'ceil', 'floor', 'math', 'float'} and \
+        not any(isinstance(n, ast.Call) and (dotted(n.func) or '') not in ('np.asarray', 'np.array', 'len', 'max', 'int', 'ceil', 'floor', 'math.ceil', 'math.floor', 'np.ceil', 'np.floor', 'float') for n in ast.walk(x))
+    if s_ok and e_ok:
+        ctx.holds('C17.S1', fi, 'kept chunks start with the first chunk', s_e)
+        ctx.holds('C17.S1', fi, 'stride runs over all n_chunks = len(bounds) - 1 chunks', s_e)
+        ctx.holds('C17.S1', fi, 'each kept chunk contributes its whole interval (bounds[i], bounds[i+1])', e_e)
+        ctx.holds('C17.S1', fi, 'kept bounds are stored as the flat list of (start, end) pairs, multiplicity preserved', fin[0])
+        step = [n for n in ast.walk(s_e) if isinstance(n, ast.Slice) and n.step is not None][0].step
+        judge_stride(ctx, fi, step, divform, 'len(%s)-1' % bounds_p, kept_p)
+    elif vocab(s_e) and vocab(e_e):
+        ctx.violated('C17.S1', fi, fin[0], 'the kept bounds are (%s, %s): not the (start, end) pairs of every step-th chunk of the supplied grid, starting with the first' %
+                     (unparse(s_e)[:60], unparse(e_e)[:60]))
+    else:
+        ctx.undecided('C17.S1', fi, 'operands of the kept-chunk table not recognised (%s, %s)' % (unparse(s_e)[:50], unparse(e_e)[:50]), fin[0])
+
+
 def s1_init(ctx):
     repo = ctx.repo
     cls = repo.cls(A, 'SpikeSelector')
@@ -254,7 +327,8 @@ def s1_init(ctx):
     kept_p = fi.params[4] if len(fi.params) > 4 else 'n_chunks_kept'
     loops = fi.nodes(ast.For)
     if not loops:
-        ctx.undecided('C17.S1', fi, 'no loop building the kept chunks')
+        _vector_form(ctx, fi, bounds_p, kept_p)
+        _stored(ctx, fi)
         return
     lp = loops[0]
     it = fi.expand(lp.iter, stop=(bounds_p, kept_p))
@@ -267,41 +341,12 @@ def s1_init(ctx):
     t0, t1, t2 = (unparse(x).replace(' ', '') for x in (a0, a1, a2))
     ctx.check(t0 == '0', 'C17.S1', fi, lp.iter, 'kept chunks start with the first chunk', 'kept chunks start at %s, not at the first chunk' % t0)
     ctx.check(t1 == nch, 'C17.S1', fi, lp.iter, 'stride runs over all n_chunks = len(bounds) - 1 chunks', 'stride runs up to %s, not len(bounds) - 1' % t1)
-    # step: max(1, ceil-division(n_chunks, kept))
-    def txt(x):
-        return unparse(x).replace(' ', '')
+    judge_stride(ctx, fi, a2, divform, nch, kept_p)
+    _rest_of_loop_form(ctx, fi, lp, bounds_p)
+    _stored(ctx, fi)
 
-    def divform(e):
-        """-> ('ceil'|'floor', numerator text, denominator text) or None"""
-        if isinstance(e, ast.Call) and dotted(e.func) in ('int', 'np.int64', 'np.int32') and len(e.args) == 1:
-            inner = divform(e.args[0])
-            if inner:
-                return inner
-            x = e.args[0]
-            if isinstance(x, ast.BinOp) and isinstance(x.op, ast.Div):
-                return ('floor', txt(x.left), txt(x.right))
-            return None
-        if isinstance(e, ast.Call) and (dotted(e.func) or '').split('.')[-1] in ('ceil', 'floor') and len(e.args) == 1:
-            x = e.args[0]
-            if isinstance(x, ast.BinOp) and isinstance(x.op, ast.Div):
-                den = x.right
-                if isinstance(den, ast.Call) and dotted(den.func) == 'float':
-                    den = den.args[0]
-                num = x.left
-                if isinstance(num, ast.Call) and dotted(num.func) == 'float':
-                    num = num.args[0]
-                return ((dotted(e.func) or '').split('.')[-1], txt(num), txt(den))
-            return None
-        if isinstance(e, ast.BinOp) and isinstance(e.op, ast.FloorDiv):
-            l = e.left
-            if isinstance(l, ast.BinOp) and isinstance(l.op, ast.Sub) and const_value(l.right) == 1 and isinstance(l.left, ast.BinOp) and \
-                    isinstance(l.left.op, ast.Add) and txt(l.left.right) == txt(e.right):
-                return ('ceil', txt(l.left.left), txt(e.right))
-            return ('floor', txt(l), txt(e.right))
-        if isinstance(e, ast.UnaryOp) and isinstance(e.op, ast.USub) and isinstance(e.operand, ast.BinOp) and isinstance(e.operand.op, ast.FloorDiv) and \
-                isinstance(e.operand.left, ast.UnaryOp) and isinstance(e.operand.left.op, ast.USub):
-            return ('ceil', txt(e.operand.left.operand), txt(e.operand.right))
-        return None
+
+def judge_stride(ctx, fi, a2, divform, nch, kept_p):
     inner = None
     has_max1 = False
     if isinstance(a2, ast.Call) and dotted(a2.func) == 'max' and len(a2.args) == 2:
@@ -321,6 +366,9 @@ def s1_init(ctx):
         ctx.violated('C17.S1', fi, a2, 'stride `%s` divides %s by %s, not the number of chunks by the number of kept chunks' % (unparse(a2), inner[1], inner[2]))
     else:
         ctx.undecided('C17.S1', fi, 'stride formula `%s` not recognised' % unparse(a2), a2)
+
+
+def _rest_of_loop_form(ctx, fi, lp, bounds_p):
     # whole intervals bounds[i:i+2]
     i = unparse(lp.target)
     ext = [c for c in q.calls_named(lp, 'extend', 'append')]
@@ -348,6 +396,9 @@ def s1_init(ctx):
                          'drops every second chunk (stride 1)' % unparse(a))
         else:
             ctx.undecided('C17.S1', fi, 'conversion of the kept bounds `%s` not recognised' % unparse(a), a)
+
+
+def _stored(ctx, fi):
     # stored attributes used by __call__
     st = {unparse(t) for n_, t in q.stores_to(fi, lambda e: isinstance(e, ast.Attribute))}
     need = {'self.get_spikes_per_cluster', 'self.spike_times', 'self.chunks_kept'}
